@@ -1,5 +1,5 @@
 """C01: canonicalize_url on URL skeletons with symbolic holes in every component."""
-from pysx.api import sym_str, cat
+from pysx.api import sym_str, sym_tokens, cat
 from pysx.harness import run_prop
 from spec import c01 as S
 
@@ -23,9 +23,11 @@ SKELETONS = [
     ("query-escape", "http://x.fr/a?k=%", "&l"),
     ("userinfo-escape", "http://u%", "@x.fr/"),
     ("fragment-escape", "http://x.fr/#%", ""),
+    ("ipv6", "http://u@[::1", "]:8080/x"),
+    ("ipv6-port", "https://[2001:db8::1]:", "/x?k=v"),
 ]
 BOUNDS = {
-    "quick": "18 URL skeletons (hole in path tail/middle/root, username, password, host tail, port, query key/value, fragment, before the scheme, scheme separator, after the host, whole string, and right after a '%' in path / query value / username / fragment) x every hole string of length 0..2 (3 for the path-tail hole and the four holes after a '%') over all code points x quoted x strip_fragment (all four combinations up to length 1, (F,F) and (T,T) beyond) x default_protocol in {https, http}",
+    "quick": "20 URL skeletons (hole in path tail/middle/root, username, password, host tail, port, query key/value, fragment, before the scheme, scheme separator, after the host, whole string, and right after a '%' in path / query value / username / fragment) x every hole string of length 0..2 (3 for the path-tail hole and the four holes after a '%') over all code points x quoted x strip_fragment (all four combinations up to length 1, (F,F) and (T,T) beyond) x default_protocol in {https, http}; plus holes made of 2-3 escape tokens with symbolic hex digits (bytes >= 0x80) in path / query value / username / fragment",
     "thorough": "same skeletons, holes of length 0..4 (3 in netloc positions)",
 }
 STUBS = ["UTF-8 codec, urllib.parse.quote, dict table lookups, regex matcher (see C14)", "stdlib urlsplit / SplitResult properties / urlunsplit interpreted from source",
@@ -38,9 +40,10 @@ LONG = ("path-tail", "path-mid", "path-root", "query-key", "query-value", "fragm
         "userinfo-escape", "fragment-escape")
 
 
-def canon(st, skel, n, quoted, strip_fragment, dp):
+def canon(st, skel, n, quoted, strip_fragment, dp, shape=None):
     name, pre, post = SKELETONS[skel]
-    u = cat(pre, sym_str(st, "s", n), post)
+    hole = sym_tokens(st, "t", shape) if shape else sym_str(st, "s", n)
+    u = cat(pre, hole, post)
     for label, prop in S.ALL:
         run_prop(st, label, prop, u, quoted, strip_fragment, dp)
 
@@ -67,4 +70,14 @@ def items(tier):
                     if n >= 2:
                         it["defer_depth"] = 8 if n == 2 else 12
                     out.append(it)
+    # holes made of escape tokens (e = escape of a byte >= 0x80 with symbolic hex digits, c = any code point):
+    # reaches multi-byte UTF-8 sequences, complete, truncated and ill-formed
+    names = [s_[0] for s_ in SKELETONS]
+    for name, shapes in (("path-tail", ["ee", "eec", "eee"]), ("query-value", ["ee", "eee"]), ("userinfo", ["ee"]), ("fragment", ["eec"])):
+        if not quick:
+            shapes = ["ee", "eec", "cee", "eee", "eeec", "eeee"]
+        for sh in shapes:
+            for quoted in (False, True):
+                out.append({"fn": "canon", "params": {"skel": names.index(name), "n": 0, "quoted": quoted, "strip_fragment": quoted, "dp": "https", "shape": sh},
+                            "name": "%s tokens=%s quoted=%s" % (name, sh, quoted), "weight": 30 ** len(sh), "defer_depth": 8})
     return out
